@@ -783,23 +783,26 @@ class BptkServer(Flask):
         
         instance = self._instance_manager.get_instance(instance_uuid)
 
-        if(instance.is_locked()):
+        if(not instance.try_lock()):
             resp = make_response('{"error": "instace is locked"}', 500)
             resp.headers['Content-Type'] = 'application/json'
             resp.headers['Access-Control-Allow-Origin'] = '*'
             return resp
 
-        if not request.is_json:
-            result = instance.run_step()
-        else:
-            content = request.get_json()
-            if "settings" in content:
-                result = instance.run_step(settings=content["settings"], flat="flatResults" in content and content["flatResults"] == True)
+        try:
+            if not request.is_json:
+                result = instance.run_step()
             else:
-                resp = make_response('{"error": "expecting settings to be set"}', 500)
-                resp.headers['Content-Type'] = 'application/json'
-                resp.headers['Access-Control-Allow-Origin'] = '*'
-                return resp
+                content = request.get_json()
+                if "settings" in content:
+                    result = instance.run_step(settings=content["settings"], flat="flatResults" in content and content["flatResults"] == True)
+                else:
+                    resp = make_response('{"error": "expecting settings to be set"}', 500)
+                    resp.headers['Content-Type'] = 'application/json'
+                    resp.headers['Access-Control-Allow-Origin'] = '*'
+                    return resp
+        finally:
+            instance.unlock()
 
         if result is not None:
             resp = make_response(jsonpickle.dumps(result), 200)
